@@ -33,7 +33,9 @@ M(p, i, s, j, b) ==
       IF seg.k = "opt" THEN (IF Len(rest) = 0 THEN [ok |-> "yes", b |-> Append(b, <<>>)]
                              ELSE IF Len(rest) = 1 THEN (IF HasEmpty(rest) THEN Un ELSE [ok |-> "yes", b |-> Append(b, rest)])
                              ELSE IF HasEmpty(rest) /\ Len(rest) <= 2 THEN Un ELSE No)
-      ELSE IF seg.k = "plus" THEN (IF Len(rest) = 0 THEN No ELSE IF HasEmpty(rest) THEN Un ELSE [ok |-> "yes", b |-> Append(b, rest)])
+      \* ':n+' repeats what ':n' binds - a non-empty segment - one or more times: an empty segment among them is no match (the one tolerated
+      \* trailing slash is handled in Matches).  For '?' and '*' the documented grammar is silent about empty segments: unspecified.
+      ELSE IF seg.k = "plus" THEN (IF Len(rest) = 0 \/ HasEmpty(rest) THEN No ELSE [ok |-> "yes", b |-> Append(b, rest)])
       ELSE (IF HasEmpty(rest) THEN Un ELSE [ok |-> "yes", b |-> Append(b, rest)])
 
 \* one optional trailing slash is tolerated
